@@ -41,6 +41,9 @@ pub enum Op {
     /// the next service call panics synchronously inside `Service::call` (kills that worker)
     PanicNext,
     Sleep { ms: u16 },
+    /// a fatal accept error on listener `l` with a client waiting there, while the accept thread
+    /// is kept busy with other events: the client must be served roughly 500 ms later all the same
+    BackoffBusy { l: u16 },
     Stop { graceful: bool, twice: bool, drop_future: bool },
 }
 
@@ -589,6 +592,46 @@ fn run_once(c: &Case, prop: Prop) -> Result<Obs, (Fail, bool)> {
                 }
             }
             Op::Sleep { ms } => thread::sleep(Duration::from_millis(ms as u64 % 700)),
+            Op::BackoffBusy { l } => {
+                r.refresh();
+                if r.paused || r.clients.len() >= 11 || r.held() >= r.workers * r.limit || r.waiting() > 0 {
+                    continue;
+                }
+                let l = vcore::pick(l, nl);
+                hv::clear_injected(r.fds[l]);
+                hv::inject_accept_error(r.fds[l], Some(libc::EMFILE), std::io::ErrorKind::Other);
+                let sock = match &r.addrs[l] {
+                    LAddr::Tcp(a) => std::net::TcpStream::connect_timeout(a, BOUND).map(|s| {
+                        let _ = socket2::SockRef::from(&s).set_linger(Some(Duration::ZERO));
+                        Sock::Tcp(s)
+                    }),
+                    LAddr::Uds(p) => std::os::unix::net::UnixStream::connect(p).map(Sock::Uds),
+                };
+                let Ok(mut sock) = sock else { continue };
+                let id = next_id;
+                next_id += 1;
+                let _ = sock.write_all(&id.to_le_bytes());
+                r.clients.push(Client { id, listener: l, sock, state: CState::Waiting, connected_at: Instant::now(), served_at: None, connected_while_paused: false });
+                r.label("inject");
+                r.label("backoff-under-load");
+                // keep the accept thread's poll busy: every resume() command is a waker event
+                let t0 = Instant::now();
+                let bound = Duration::from_millis(2600);
+                let mut served = false;
+                while t0.elapsed() < bound {
+                    block_on(r.handle.resume());
+                    thread::sleep(Duration::from_millis(40));
+                    r.refresh();
+                    if r.clients.last().map(|c| c.state != CState::Waiting).unwrap_or(true) {
+                        served = true;
+                        break;
+                    }
+                }
+                if !served {
+                    let msg = format!("a client that met an injected EMFILE on listener {} was not served {:?} after the error although the back-off is about 500 ms (the accept thread kept receiving other events meanwhile)", l, t0.elapsed());
+                    r.flag(Prop::C05, "C05/backoff-starved", msg, true);
+                }
+            }
             Op::Stop { graceful, twice, drop_future } => {
                 r.refresh();
                 stop_checked = true;
@@ -818,6 +861,7 @@ pub mod gen {
             alts.push((p.pause, Just(vec![Op::Resume]).boxed()));
         }
         if p.inject > 0 {
+            alts.push((p.inject, sel().prop_map(|l| vec![Op::BackoffBusy { l }, Op::Settle]).boxed()));
             alts.push((p.inject, (sel(), errkind()).prop_map(|(l, kind)| vec![Op::Inject { l, kind }, Op::Connect { l }, Op::Settle]).boxed()));
             alts.push((p.inject, (sel(), errkind()).prop_map(|(l, kind)| vec![Op::Inject { l, kind }, Op::Connect { l }, Op::Sleep { ms: 50 }, Op::Pause, Op::Resume, Op::Settle]).boxed()));
         }
